@@ -395,6 +395,77 @@ def parse_int(s, base=10):
     return T.ineg(acc) if sign < 0 else acc
 
 
+def parse_float(s):
+    """float(<string>) for decimal numerals  [sign] digits [. digits] [e [sign] digits]  whose integer digits may be symbolic while the
+    fraction and the exponent are concrete.  float() is correctly rounded, so whenever the exact decimal value is a dyadic rational the
+    result is that value rounded to 53 bits (T._fexact); anything else is outside the model."""
+    from fractions import Fraction
+    from .term import OutOfModel
+    cs = list(chars_of(s))
+    while cs and _isinstance(cs[0], _str) and cs[0] in ' \t\n':
+        cs.pop(0)
+    while cs and _isinstance(cs[-1], _str) and cs[-1] in ' \t\n':
+        cs.pop()
+    bad = ValueError('could not convert string to float')
+    if not cs:
+        raise bad
+    sign = 1
+    c0 = cs[0]
+    if _isinstance(c0, _str):
+        if c0 in '+-':
+            sign, cs = (-1 if c0 == '-' else 1), cs[1:]
+    elif c0.alpha & set('+-'):
+        if bool(char_in_set(c0, '-')):
+            sign, cs = -1, cs[1:]
+        elif bool(char_in_set(c0, '+')):
+            cs = cs[1:]
+    mant, expo = cs, []
+    for i, c in enumerate(cs):
+        if _isinstance(c, _str) and c in 'eE':
+            mant, expo = cs[:i], cs[i + 1:]
+            if not expo:
+                raise bad
+            break
+    ip, fp = mant, []
+    for i, c in enumerate(mant):
+        if _isinstance(c, _str) and c == '.':
+            ip, fp = mant[:i], mant[i + 1:]
+            break
+    if not ip and not fp:
+        raise bad
+    digits = set('0123456789')
+    for c in ip + fp + expo:
+        if _isinstance(c, _str):
+            if c not in digits and not (c in '+-' and expo and c is expo[0]):
+                if c == '_' or c.lower() in 'infa':
+                    raise OutOfModel('float() of %r' % (c,))
+                raise bad
+        elif not (c.alpha <= digits):
+            raise OutOfModel('float() of a symbolic string with non-digit alternatives')
+    if not _all(_isinstance(c, _str) for c in fp + expo):
+        raise OutOfModel('float() of a string with symbolic fraction or exponent digits')
+    e10 = int(''.join(expo)) if expo else 0
+    frac = Fraction(int(''.join(fp)), 10 ** _len(fp)) if fp else Fraction(0)
+    acc = 0
+    for c in ip:
+        acc = T.iadd(T.imul(acc, 10), char_digit(c, 10))
+    if not _isinstance(acc, T.SInt):
+        r = float(('-' if sign < 0 else '') + ''.join(ip) + '.' + ''.join(fp) + 'e%d' % e10) if (ip or fp) else 0.0
+        return r
+    if e10 < 0:
+        raise OutOfModel('float() of a symbolic decimal with a negative exponent')
+    scale = 10 ** e10
+    fr = frac * scale
+    den = fr.denominator
+    if den & (den - 1):
+        raise OutOfModel('float() of a symbolic decimal whose fraction is not dyadic')
+    k = den.bit_length() - 1
+    num = T.iadd(T.imul(acc, scale << k), fr.numerator)
+    if sign < 0:
+        num = T.ineg(num)
+    return T._fexact(num, -k, 'float(str)')
+
+
 class SSet:
     """set(<symbolic string>) - only what utils.add_binary_prefix needs"""
     def __init__(self, chars):
